@@ -16,6 +16,7 @@ PROPERTY = Property(
               StandIn("split_peaks tiling (both split finders)", B.split_peaks, B.split_peaks.harness),
               StandIn("store_downsampled_waveform", B.store_downsampled_waveform, B.store_downsampled_waveform.harness),
               StandIn("index_of_fraction = defining formula", B.index_of_fraction, B.index_of_fraction.harness),
+              StandIn("highest_density_region = defining formula", B.highest_density_region, B.highest_density_region.harness),
               StandIn("replay-scope:symmetric_moving_average", PK.symmetric_moving_average, PK.symmetric_moving_average.harness)],
     trusted=["pyvc VC generator and value model", "z3 5.1.0 / cvc5 1.4.0", "ghost prefix sums (definitional axioms)"],
     assumptions=["A3 floating point is modelled over the reals (symmetric_moving_average proof); stand-ins compare with a stated tolerance",
